@@ -49,6 +49,11 @@ pub enum FaultOp {
     SealTwin,
     /// append a block signed with the visible proof secret onto a sealed token's blocks
     AppendWithRandKey { seed: u64 },
+    /// the holder (who sees the proof secret) and a signer of its own append a third-party block
+    /// that is chained correctly but whose signatures use another layout than the one the
+    /// specification fixes: block signature version 0 or 1, external signature over the
+    /// deprecated payload (payload + previous *key*) or over the current one with version 0 / 1
+    TpForge { block_version: u32, ext_layout: u8 },
     KidSet { v: Option<u32> },
     EncUnknownField,
     EncDupRootKeyId,
@@ -96,6 +101,7 @@ impl FaultOp {
             FaultOp::ProofRandSecret { .. } => "proof.rand",
             FaultOp::SealTwin => "seal.twin",
             FaultOp::AppendWithRandKey { .. } => "blk.append_forged",
+            FaultOp::TpForge { .. } => "tp.layout_forged",
             FaultOp::KidSet { .. } => "kid.set",
             FaultOp::EncUnknownField => "enc.unknown",
             FaultOp::EncDupRootKeyId => "enc.dupfield",
@@ -104,6 +110,21 @@ impl FaultOp {
             FaultOp::ByteExt { .. } => "byte.ext",
             FaultOp::ByteZero { .. } => "byte.zero",
         }
+    }
+
+    /// operators on third-party blocks: delete / add / move / re-attribute / alter the external
+    /// signature, forge a third-party block onto the token (C07)
+    pub fn third_party_level(&self) -> bool {
+        matches!(
+            self,
+            FaultOp::ExtDel { .. }
+                | FaultOp::ExtAddAux { .. }
+                | FaultOp::ExtKeyRand { .. }
+                | FaultOp::ExtSigFlip { .. }
+                | FaultOp::ExtMove { .. }
+                | FaultOp::ExtTwin { .. }
+                | FaultOp::TpForge { .. }
+        )
     }
 
     /// operators that only touch signature bytes (C15's non-malleability clause)
@@ -506,6 +527,58 @@ pub fn apply(op: &FaultOp, victim: &[u8], aux: Option<&[u8]>) -> Option<Vec<u8>>
             });
             t.proof.content = Some(schema::proof::Content::NextSecret(next.secret()));
         }
+        FaultOp::TpForge { block_version, ext_layout } => {
+            let secret = match &t.proof.content {
+                Some(schema::proof::Content::NextSecret(s)) => s.clone(),
+                _ => return None,
+            };
+            let last = t.blocks.last().unwrap_or(&t.authority).clone();
+            let holder_alg = last_alg(&t);
+            let signer = KeySpec { alg: Alg::Ed25519, seed: 0x7b7b };
+            let next = KeySpec { alg: Alg::Ed25519, seed: 0x7b7c };
+            // an empty Datalog 3.2 block
+            let mut payload = Vec::new();
+            schema::Block { symbols: vec![], context: None, version: Some(5), facts_v2: vec![], rules_v2: vec![], checks_v2: vec![], scope: vec![], public_keys: vec![] }
+                .encode(&mut payload)
+                .ok()?;
+            let prev_key = refchain::parse_key(&last.next_key).ok()?;
+            let ext_msg = match ext_layout {
+                // deprecated: payload, algorithm and bytes of the previous block's next key
+                0 => {
+                    let mut v = payload.clone();
+                    v.extend_from_slice(&(if prev_key.alg == Alg::P256 { 1i32 } else { 0i32 }).to_le_bytes());
+                    v.extend_from_slice(&prev_key.bytes);
+                    v
+                }
+                // current layout, declaring version 0
+                1 => {
+                    let mut v = b"\0EXTERNAL\0\0VERSION\0".to_vec();
+                    v.extend_from_slice(&0u32.to_le_bytes());
+                    v.extend_from_slice(b"\0PAYLOAD\0");
+                    v.extend_from_slice(&payload);
+                    v.extend_from_slice(b"\0PREVSIG\0");
+                    v.extend_from_slice(&last.signature);
+                    v
+                }
+                _ => refchain::external_payload(&payload, &last.signature),
+            };
+            // (block version 1 with the current external layout is what an honest signer and
+            // holder produce: not a fault)
+            if *block_version == 1 && *ext_layout >= 2 {
+                return None;
+            }
+            let ext_sig = refchain::sign(signer.alg, &signer.secret(), &ext_msg).ok()?;
+            let msg = refchain::block_payload(*block_version, &payload, &next.rkey(), Some(&last.signature), Some(&ext_sig)).ok()?;
+            let sig = refchain::sign(holder_alg, &secret, &msg).ok()?;
+            t.blocks.push(schema::SignedBlock {
+                block: payload,
+                next_key: next.keypair().public().to_proto(),
+                signature: sig,
+                external_signature: Some(schema::ExternalSignature { signature: ext_sig, public_key: signer.keypair().public().to_proto() }),
+                version: if *block_version > 0 { Some(*block_version) } else { None },
+            });
+            t.proof.content = Some(schema::proof::Content::NextSecret(next.secret()));
+        }
         FaultOp::KidSet { v } => {
             if t.root_key_id == *v {
                 return None;
@@ -599,6 +672,9 @@ pub fn table(n: usize, m: Option<usize>, victim_len: usize, seed: u64, n_bytes: 
     v.push(FaultOp::ProofRandSecret { seed: rng.next() >> 8 });
     v.push(FaultOp::SealTwin);
     v.push(FaultOp::AppendWithRandKey { seed: rng.next() >> 8 });
+    for (block_version, ext_layout) in [(0u32, 0u8), (0, 1), (0, 2), (1, 0), (1, 1)] {
+        v.push(FaultOp::TpForge { block_version, ext_layout });
+    }
     for kid in [None, Some(0), Some(1), Some(7)] {
         v.push(FaultOp::KidSet { v: kid });
     }
